@@ -169,6 +169,12 @@ pub struct Engine {
     run_notes: Vec<(String, serde_json::Value)>,
     /// optional per-constant hash classes (must be lawful: see `set_hash_class`)
     hash_classes: HashMap<u32, u64>,
+    /// formulas asserted in the current run (for the second-solver cross-check)
+    asserted: Vec<Ast>,
+    xcheck_every: u64,
+    xcheck_ctr: u64,
+    xcheck_buf: String,
+    xcheck_n: u64,
 }
 
 thread_local! {
@@ -228,6 +234,11 @@ impl Engine {
             samples: vec![],
             run_notes: vec![],
             hash_classes: HashMap::new(),
+            asserted: vec![],
+            xcheck_every: 0,
+            xcheck_ctr: 0,
+            xcheck_buf: String::new(),
+            xcheck_n: 0,
         }
     }
 
@@ -352,6 +363,26 @@ impl Engine {
         if e != 0 {
             std::panic::panic_any(EngineError(format!("z3 error code {}", e)));
         }
+        if self.xcheck_every > 0 {
+            self.xcheck_ctr += 1;
+            if self.xcheck_ctr % self.xcheck_every == 0 && self.xcheck_n < 4000 {
+                // record this query as a self-contained SMT-LIB block for cvc5
+                self.xcheck_n += 1;
+                let z = self.z3.as_ref().unwrap();
+                let mut b = String::from("(push 1)\n");
+                for i in 0..self.n_ints.max(self.int_asts.len() as u32) {
+                    b.push_str(&format!("(declare-const k!{} Int)\n", i));
+                }
+                for i in 0..self.n_bools.max(self.bool_asts.len() as u32) {
+                    b.push_str(&format!("(declare-const k!{} Bool)\n", i + (1 << 24)));
+                }
+                for a in &self.asserted {
+                    b.push_str(&format!("(assert {})\n", z.to_string(*a)));
+                }
+                b.push_str(&format!("(assert {})\n(check-sat)\n; expect {}\n(pop 1)\n", z.to_string(lit), if r == L_TRUE { "sat" } else { "unsat" }));
+                self.xcheck_buf.push_str(&b);
+            }
+        }
         r
     }
 
@@ -410,6 +441,7 @@ impl Engine {
         });
         self.stats.max_depth = self.stats.max_depth.max(self.stack.len());
         self.z3.as_mut().unwrap().assert(lit);
+        self.asserted.push(lit);
         self.cache.insert(a, true);
         true
     }
@@ -492,6 +524,7 @@ pub fn assume(f: &F) {
         }
         let a = e.f_ast(f);
         e.z3.as_mut().unwrap().assert(a);
+        e.asserted.push(a);
         let r = e.z3.as_mut().unwrap().check();
         if r == L_FALSE {
             std::panic::panic_any(Infeasible);
@@ -510,6 +543,7 @@ pub fn assume_nocheck(f: &F) {
         }
         let a = e.f_ast(f);
         e.z3.as_mut().unwrap().assert(a);
+        e.asserted.push(a);
     })
 }
 
@@ -701,6 +735,8 @@ pub struct FoundViolation {
 }
 
 pub struct ExploreOpts {
+    /// record every k-th solver query for the cvc5 cross-check (0 = off)
+    pub xcheck_every: u64,
     /// re-execute every k-th passing leaf concretely (0 = never)
     pub recheck_every: u64,
     pub seed: u64,
@@ -711,6 +747,8 @@ pub struct ExploreOpts {
 }
 
 pub struct ExploreResult {
+    /// recorded queries (SMT-LIB text) for the second solver
+    pub xcheck: String,
     pub stats: Stats,
     pub violations: Vec<FoundViolation>,
     pub engine_errors: Vec<String>,
@@ -770,6 +808,7 @@ where
     let errors: Mutex<Vec<String>> = Mutex::new(vec![]);
     let total: Mutex<Stats> = Mutex::new(Stats::default());
     let samples: Mutex<Vec<serde_json::Value>> = Mutex::new(vec![]);
+    let xcheck: Mutex<String> = Mutex::new(String::new());
     let timed_out = AtomicBool::new(false);
     let shapes_started = AtomicUsize::new(0);
 
@@ -781,6 +820,7 @@ where
             let errors = &errors;
             let total = &total;
             let samples = &samples;
+            let xcheck = &xcheck;
             let timed_out = &timed_out;
             let shapes_started = &shapes_started;
             std::thread::Builder::new()
@@ -789,6 +829,7 @@ where
                     let mut eng = Engine::new(true);
                     eng.share = Some(shared.clone());
                     eng.split_depth = opts.split_depth;
+                    eng.xcheck_every = opts.xcheck_every;
                     ENG.with(|e| *e.borrow_mut() = Some(eng));
                     loop {
                         if shared.stop.load(Ordering::SeqCst) || ext_stop.load(Ordering::SeqCst) {
@@ -843,6 +884,7 @@ where
                                 e.run_cmps = 0;
                                 e.cmp_mark = None;
                                 e.run_notes.clear();
+                                e.asserted.clear();
                                 e.hash_classes.clear();
                                 e.cache.clear();
                                 e.z3.as_mut().unwrap().push();
@@ -851,6 +893,7 @@ where
                                     let a = e.atom_ast(s.atom);
                                     let a = if s.val { a } else { e.z3.as_ref().unwrap().not(a) };
                                     e.z3.as_mut().unwrap().assert(a);
+                                    e.asserted.push(a);
                                     e.cache.insert(s.atom, s.val);
                                 }
                                 e.stats.runs += 1;
@@ -1009,6 +1052,7 @@ where
                         st.solver_ns = z.solver_ns;
                     }
                     total.lock().unwrap().merge(&st);
+                    xcheck.lock().unwrap().push_str(&eng.xcheck_buf);
                     let mut s = samples.lock().unwrap();
                     for x in eng.samples {
                         if s.len() < 4 {
@@ -1021,6 +1065,7 @@ where
     });
 
     ExploreResult {
+        xcheck: xcheck.into_inner().unwrap(),
         stats: total.into_inner().unwrap(),
         violations: violations.into_inner().unwrap(),
         engine_errors: errors.into_inner().unwrap(),
@@ -1142,12 +1187,16 @@ where
                 "shapes_done": r.shapes_done,
             });
             let path = work_dir.join(format!("part-{}.json", k));
+            if !r.xcheck.is_empty() {
+                let _ = std::fs::write(work_dir.join(format!("xcheck-{}.smt2", k)), format!("(set-logic QF_LIA)\n{}", r.xcheck));
+            }
             let ok = std::fs::write(&path, serde_json::to_vec(&doc).unwrap()).is_ok();
             unsafe { _exit(if ok { 0 } else { 3 }) };
         }
         pids.push(pid);
     }
     let mut res = ExploreResult {
+        xcheck: String::new(),
         stats: Stats::default(),
         violations: vec![],
         engine_errors: vec![],
@@ -1189,6 +1238,27 @@ where
         }
         res.shapes_done += v["shapes_done"].as_u64().unwrap() as usize;
         let _ = std::fs::remove_file(&path);
+        // second solver: cvc5 must agree with z3 on every recorded query
+        let xp = work_dir.join(format!("xcheck-{}.smt2", k));
+        if xp.exists() {
+            let txt = std::fs::read_to_string(&xp).unwrap_or_default();
+            let expect: Vec<&str> = txt.lines().filter_map(|l| l.strip_prefix("; expect ")).collect();
+            match std::process::Command::new("cvc5").arg("--incremental").arg("--lang").arg("smt2").arg(&xp).output() {
+                Ok(o) => {
+                    let out = String::from_utf8_lossy(&o.stdout).into_owned();
+                    let got: Vec<&str> = out.lines().filter(|l| *l == "sat" || *l == "unsat").collect();
+                    if out.contains("(error") || got.len() != expect.len() {
+                        res.engine_errors.push(format!("cvc5 cross-check inconclusive on {} ({} answers for {} queries)", xp.display(), got.len(), expect.len()));
+                    } else if got != expect {
+                        res.engine_errors.push(format!("cvc5 disagrees with z3 on a recorded query; file kept: {}", xp.display()));
+                    } else {
+                        *res.stats.witness.entry("solver_queries_cross_checked_with_cvc5".into()).or_insert(0) += got.len() as u64;
+                        let _ = std::fs::remove_file(&xp);
+                    }
+                }
+                Err(e) => res.engine_errors.push(format!("cannot run cvc5: {}", e)),
+            }
+        }
     }
     let _ = std::fs::remove_dir(work_dir);
     res
